@@ -3,6 +3,8 @@ NOTES = ("Solver-based checking of the real code: the C++ engine is executed sym
          "in the evidence), 1 = a replayed violation not listed in known_findings.json, 2 = harness error. See DESIGN.md.")
 TRUST = ("trusted: clang's AST, the interpreter's semantics for the node kinds that occur (validated concretely against the real .so on every run), "
          "the stub contracts of DESIGN.md 2.1 (uniform in [0,1), Poisson >= 0, clock non-decreasing), z3; doubles are exact reals")
+PYTRUST = ("trusted: CrossHair's proxy semantics with Python floats modelled as exact reals (vt/chreal.py), z3, CPython's repr/float, numpy; counterexamples are replayed in plain CPython; "
+           "'Confirmed over all paths' = path tree exhausted inside the stated ranges")
 CHECKS = {
  "C01": {"engine": "cxx-sym", "technique": "symbolic execution of the engine AST (tag-traced ABI) + z3 QF_NRA: Euler step == x + dt*law for all numeric inputs",
          "text": "bounded proof by SMT: for every catalogue structure one Euler step of the real engine code, reached through the real marshalling layer, equals the reference rate law for EVERY state, rate constant, diffusion coefficient, surface, distance and dt (unsat verdicts in nonlinear real arithmetic); structures are a bounded catalogue",
@@ -28,5 +30,23 @@ CHECKS = {
  "C14": {"engine": "cxx-sym", "technique": "symbolic execution of the init-state section of the ABI + loop-body induction and an exists/forall progress query (z3) for the redistribution loop",
          "text": "for all real-valued states: 'none' passes the state through, Poisson mode draws each entry with that entry's amount as mean (zero stays zero), redistribution receives/returns the state in the right layout with the script's seed; the correction loop of the redistribution keeps 'non-negative integers, empty cells stay empty, total off by the remaining correction' (induction from an arbitrary invariant state) and from every such state some draw makes progress (termination with probability 1)",
          "note": TRUST + "; 2-4 cells, one species in the loop-body induction; the redistribution function is replaced by its contract in the ABI legs"},
+ "C05": {"engine": "py-sym", "technique": "CrossHair symbolic execution of strengths.units with real-number floats + z3: SI homomorphism per operator / pairing / unit-system pair; error clauses with symbolic dimension vectors",
+         "text": "for every magnitude in the stated ranges each operator application on UnitValue agrees with arithmetic on SI values and dimension vectors ('Confirmed over all paths'), and dimensionally meaningless operations raise for every pair of distinct dimension vectors in a cube",
+         "note": PYTRUST},
+ "C06": {"engine": "py-sym", "technique": "CrossHair + z3 on convert/compute_conversion_factor; composition law with the conversion table replaced by solver variables; concrete table obligations for the 47 symbols",
+         "text": "conversion multiplies by prod (src/dst)^e for every magnitude; identity, round trip, intermediate, all target forms, mismatch raises; f(a->b)f(b->c)=f(a->c) proved for arbitrary positive table values; every symbol compared with its SI definition",
+         "note": PYTRUST},
+ "C08": {"engine": "cxx-sym+py-sym", "technique": "symbolic execution of the loop drivers with Iterate() stubbed by an arbitrary boolean and the clock by arbitrary non-decreasing readings + z3; field-by-field comparison of set-up results after different histories",
+         "text": "run/iterate_n/iterate are proved to be plain repetitions of Iterate() on the current simulation for every slicing and clock behaviour; every field of a new set-up is the same function of its arguments whatever ran before; the generator is seeded once from the script's seed; the Euler engine makes no draw",
+         "note": TRUST + "; bit-identity of libstdc++'s generators trusted; real build exercised concretely for repeat/slicing identity"},
+ "C17": {"engine": "py-sym", "technique": "CrossHair + z3 on RDTrajectory accessors: symbolic (species, sample, cell) and symbolic sample/query times against a quantifier-free reference lookup",
+         "text": "all accessors read entry sample*S*C+species*C+cell for every triple of the catalogue shapes; the three lookup policies equal their definition for all strictly increasing sample times and all query times in s/ms/min/h",
+         "note": PYTRUST},
+ "C18": {"engine": "py-sym", "technique": "CrossHair exhaustive path enumeration over all strings of bounded length on a 14-character alphabet against a reference recogniser of the documented grammar; print-parse with symbolic exponents",
+         "text": "every string within the bound either raises or is read with the dimension and SI scale the documented grammar gives; quantity text likewise; print->parse returns the same unit for every exponent in [-9,9]",
+         "note": PYTRUST + "; reference recogniser written from the documentation"},
+ "C19": {"engine": "py-sym", "technique": "CrossHair + z3 on Reaction / RDNetwork: symbolic coefficients, spacing, orders, dimension vectors, label strings",
+         "text": "stoichiometry vectors, orders, print-parse, rate-constant dimensions (orders 0..8), bare-number units, rejection of wrong dimensions, split, equilibrium constant, network validity and label rules hold for every value in the stated ranges",
+         "note": PYTRUST},
 }
 NOT_APPLICABLE = {}
